@@ -11,7 +11,7 @@ package mode
 //@ pure func act(st *dfa.State, k int) *Actions = unbox(st.NFAStates[k].Data, *Actions)
 //@ pure func inRange(st *dfa.State, k int) bool = 0 <= k && k < len(st.NFAStates)
 //
-//@ func ModeBuilder.pickAction$1
+//@ func ModeBuilder.pickAction$conflict
 //@   requires !isnil(errs) && !isnil(a1) && !isnil(a2)
 //@   ensures errs.hasErrors
 //@   modifies errs.hasErrors
